@@ -59,6 +59,10 @@ def stored_names(fn):
     return counts
 
 
+_MUTATING_METHODS = {'add', 'append', 'extend', 'insert', 'update', 'pop', 'popitem', 'remove', 'discard', 'clear', 'setdefault',
+                     'sort', 'reverse', 'difference_update', 'intersection_update', 'symmetric_difference_update', 'appendleft'}
+
+
 def local_env(fn):
     """Locals assigned exactly once, by a plain ``name = expr`` (not a parameter, not a loop/with/except target):
     name -> expr."""
@@ -83,6 +87,15 @@ def local_env(fn):
     # a comprehension variable with the same name is a different variable; do not expand those names at all
     for c in comp_bound:
         env.pop(c, None)
+    # a local whose object is changed in place after its definition does not equal its defining expression
+    for n in walk_no_nested(fn):
+        if isinstance(n, ast.Call) and isinstance(n.func, ast.Attribute) and isinstance(n.func.value, ast.Name) and \
+                n.func.attr in _MUTATING_METHODS:
+            env.pop(n.func.value.id, None)
+        elif isinstance(n, ast.Subscript) and isinstance(n.ctx, (ast.Store, ast.Del)) and isinstance(n.value, ast.Name):
+            env.pop(n.value.id, None)
+        elif isinstance(n, ast.Attribute) and isinstance(n.ctx, (ast.Store, ast.Del)) and isinstance(n.value, ast.Name):
+            env.pop(n.value.id, None)
     return env
 
 
